@@ -10,7 +10,7 @@ LEAN_MODULES = ["KaVerif.Props.C15"]
 GEN = []
 THEOREMS = ["KaVerif.C15_int_full", "KaVerif.C15_frac", "KaVerif.C15_float_round", "KaVerif.C15_float_text",
             "KaVerif.C15_float", "KaVerif.C15_precision_total", "KaVerif.C15_approx_total",
-            "KaVerif.C15_reentry_exact_partial", "KaVerif.C15_reentry_qty_partial", "KaVerif.C15_qty", "KaVerif.C15_array", "KaVerif.C15_interval"]
+            "KaVerif.C15_reentry_exact_partial", "KaVerif.C15_reentry_qty_partial", "KaVerif.C15_qty", "KaVerif.C15_array", "KaVerif.C15_interval", "KaVerif.C15_interval_reentry_ordered"]
 RULE = ("values of every displayable kind (int, Fraction, float, Quantity with each magnitude kind, Array, Interval, str, "
         "Instant), arrays nested to depth 3; ints up to 5000 digits, fractions with whole part 0 / >=1 / negative / huge, "
         "floats by random bit pattern across 1e-300..1e300 plus subnormals, exact rounding ties (k+0.5, 2.5e-5, 999999.5, "
@@ -307,7 +307,25 @@ def gen_instant(rng, k):
 
 
 def gen_interval(rng, k):
-    if rng.random() < 0.12:
+    r0 = rng.random()
+    if r0 < 0.12:
+        # an exact bound that is a SHORT DECIMAL (1/10, 797/1000, 1/20000 = 5e-05) or a hair (1e-18 .. 1e-27) off one, and a float
+        # bound within a few ulps of it: the float's displayed text is that short decimal, and what the tokeniser reads back from
+        # it (the nearest float when the text has a decimal point, the exact decimal when it has none) may lie on the other side
+        q = Fraction(rng.randrange(1, 1000), 10 ** rng.randrange(1, 8))
+        if rng.random() < 0.5:
+            q = Fraction(rng.randrange(1, 10), 10 ** rng.randrange(5, 40))     # shown as `5e-05`: a text WITHOUT a decimal point is read exactly
+        x = float(q)
+        for _ in range(rng.choice([0, 0, 0, 1, 2])):
+            x = math.nextafter(x, rng.choice([0.0, 2.0 * x]))
+        if rng.random() < 0.4:
+            x = float("%.6g" % x) - rng.choice([1e-8, 1e-9, 1e-10]) * x        # 0.09999999-like: rounds up onto the short decimal
+        e = q + Fraction(rng.choice([0, 0, 1, -1]), 10 ** rng.randrange(18, 28))
+        if rng.random() < 0.3:
+            e, x = -e, -x
+        e = int(e) if e.denominator == 1 else e
+        return k.I(e, x) if Fraction(e) <= Fraction(x) else k.I(x, e)
+    if r0 < 0.24:
         # an exact bound and a float bound a hair apart: rounding the float to the display precision must not carry it across
         q = Fraction(rng.randrange(1, 40), rng.choice([3, 7, 9, 11, 13, 6, 17]))
         if q.denominator == 1:
